@@ -151,7 +151,7 @@ def Out.isOk : Out → Bool
 the settings it asked for -/
 theorem createCore_ok_iff (w : World) (n h : Nat) (k : Key) (r : Req) (q : Pat) (c : Settings) :
     (createCore w n h k r).2 = .okCfg q c ↔
-      preCheck k.p r (mkSettings k.p r).vals = none ∧ findSvc w k = none ∧
+      preCheck k.p r (mkSettings k.p r).vals = none ∧ findSvc w k = none ∧ lateFails k.p r = false ∧
       zeroCap (fieldsOf k.p) (mkSettings k.p r).vals = false ∧ q = k.p ∧ c = mkSettings k.p r := by
   unfold createCore
   dsimp only
@@ -161,9 +161,12 @@ theorem createCore_ok_iff (w : World) (n h : Nat) (k : Key) (r : Req) (q : Pat) 
     cases hf : findSvc w k with
     | some s => simp
     | none =>
-      cases hz : zeroCap (fieldsOf k.p) (mkSettings k.p r).vals with
+      cases hlate : lateFails k.p r with
       | true => simp
-      | false => simp [addState, eq_comm]
+      | false =>
+        cases hz : zeroCap (fieldsOf k.p) (mkSettings k.p r).vals with
+        | true => simp
+        | false => simp [addState, eq_comm]
 
 /-- every outcome of `create` other than success leaves the world unchanged -/
 theorem createCore_unchanged (w : World) (n h : Nat) (k : Key) (r : Req)
@@ -176,17 +179,21 @@ theorem createCore_unchanged (w : World) (n h : Nat) (k : Key) (r : Req)
     cases hf : findSvc w k with
     | some s => simp
     | none =>
-      cases hz : zeroCap (fieldsOf k.p) (mkSettings k.p r).vals with
+      cases hlate : lateFails k.p r with
       | true => simp
-      | false => simp [hp, hf, hz, Out.isOk] at hn
+      | false =>
+        cases hz : zeroCap (fieldsOf k.p) (mkSettings k.p r).vals with
+        | true => simp
+        | false => simp [hp, hf, hlate, hz, Out.isOk] at hn
 
-/-- the four ways `create` ends, in code order -/
+/-- the ways `create` ends, in code order -/
 theorem createCore_out (w : World) (n h : Nat) (k : Key) (r : Req) :
     (createCore w n h k r).2 =
       match preCheck k.p r (mkSettings k.p r).vals with
       | some e => .err 0 e
       | none =>
         if (findSvc w k).isSome then .err 0 "AlreadyExists"
+        else if lateFails k.p r then .err 0 (lateErr k.p)
         else if zeroCap (fieldsOf k.p) (mkSettings k.p r).vals then .panic
         else .okCfg k.p (mkSettings k.p r) := by
   unfold createCore
@@ -197,7 +204,7 @@ theorem createCore_out (w : World) (n h : Nat) (k : Key) (r : Req) :
     cases hf : findSvc w k with
     | some s => simp
     | none =>
-      cases hz : zeroCap (fieldsOf k.p) (mkSettings k.p r).vals <;> simp [addState]
+      cases hlate : lateFails k.p r <;> cases hz : zeroCap (fieldsOf k.p) (mkSettings k.p r).vals <;> simp [addState]
 
 /-- `open`: the outcome, in code order -/
 theorem openCore_out (w : World) (n h : Nat) (k : Key) (r : Req) :
